@@ -416,7 +416,9 @@ def print_stmts(nodes, i, ind=1, opts=None, single=False):
                          # the assignment target is a reference evaluated BEFORE the yield (kept on the reference stack across the suspension)
                          '[OBJ.v = %s] = []; log(7000 + OBJ.v);' % y,
                          'with (OBJ) { v = %s; } log(7000 + OBJ.v);' % y,
-                         '({a: OBJ.v = %s} = {}); log(7000 + OBJ.v);' % y]
+                         '({a: OBJ.v = %s} = {}); log(7000 + OBJ.v);' % y,
+                         # ... and is a reference to a STACK variable of the generator (resolved dynamically because of the with statement)
+                         'var sl%d = 0; with (OBJ) { sl%d = %s; } log(7000 + sl%d);' % (i, i, y, i)]
                 out.append(p + forms[(i * 7 + n['n']) % len(forms)])
             else:
                 out.append(p + 'log(7000 + (yield %d));' % n['n'])
